@@ -494,7 +494,7 @@ Lemma finalize_unguarded c g f :
   let o := workflow_dd g1 in
   let q2 := queue_deleted (attached_tree_labels g1) (dd_deleted o) q1 in
   let r := remove_deletable_files q2 f in
-  mkFin (dd_g o) empty_queue (r_fs r) (r_files r) (r_dirs r) (dd_err o).
+  mkFin (dd_g o) (queue_after_removal (attached_tree_labels (dd_g o)) q2 f) (r_fs r) (r_files r) (r_dirs r) (dd_err o).
 Proof.
   intros Hg. unfold finalize, finalize_with. rewrite Hg.
   change finalize_cleanup_calls with [CRevert; CDeleteDetached; CRemoveFiles].
